@@ -1,9 +1,130 @@
 package checks
 
-import "vharness/internal/spec"
+import (
+	"fmt"
+
+	"vharness/internal/spec"
+)
+
+// builder: a small API for hand-written declarations of the fixed corpus.
+type builder struct{ s *spec.Spec }
+
+func newBuilder(name string) *builder {
+	return &builder{s: &spec.Spec{Name: name, PkgName: name, Dynamic: true, Files: []string{"kessoku.go"}, Seed: int64(len(name)) * 7919}}
+}
+
+func (b *builder) ext(dir, name, alias string) string {
+	b.s.ExtPkgs = append(b.s.ExtPkgs, spec.ExtPkg{Dir: dir, Name: name, Alias: alias})
+	return dir
+}
+
+func (b *builder) typ(t *spec.Type) int {
+	t.ID = len(b.s.Types)
+	if t.Kind != spec.KPtr && t.Kind != spec.KSlice && t.Kind != spec.KMap && t.Kind != spec.KFunc && t.Kind != spec.KArray {
+		t.Base = -1
+	}
+	b.s.Types = append(b.s.Types, t)
+	return t.ID
+}
+
+func (b *builder) strct(name, pkg string) int {
+	return b.typ(&spec.Type{Kind: spec.KStruct, Name: name, Pkg: pkg})
+}
+func (b *builder) ptr(base int) int { return b.typ(&spec.Type{Kind: spec.KPtr, Base: base}) }
+func (b *builder) nint(name, pkg string) int {
+	return b.typ(&spec.Type{Kind: spec.KNamedInt, Name: name, Pkg: pkg})
+}
+func (b *builder) nstr(name, pkg string) int {
+	return b.typ(&spec.Type{Kind: spec.KNamedStr, Name: name, Pkg: pkg})
+}
+func (b *builder) iface(name string) int { return b.typ(&spec.Type{Kind: spec.KIface, Name: name}) }
+
+func (b *builder) field(st int, name string, t int) {
+	b.s.Types[st].Fields = append(b.s.Types[st].Fields, spec.Field{Name: name, T: t})
+}
+
+func (b *builder) fn(name, pkg string, params []int, results []int, async, err bool) int {
+	p := &spec.Prov{ID: len(b.s.Provs), Kind: spec.PFunc, Fn: name, Pkg: pkg, Params: params, Results: results, Async: async, Err: err}
+	b.s.Provs = append(b.s.Provs, p)
+	return p.ID
+}
+
+func (b *builder) expand(t int) int {
+	p := &spec.Prov{ID: len(b.s.Provs), Kind: spec.PStruct, Results: []int{t}}
+	b.s.Provs = append(b.s.Provs, p)
+	return p.ID
+}
+
+func (b *builder) inject(name string, ret int, provs ...int) {
+	var items []spec.Item
+	for _, p := range provs {
+		items = append(items, spec.Item{Prov: p})
+	}
+	b.s.Injectors = append(b.s.Injectors, &spec.Injector{Name: name, Ret: ret, Items: items})
+}
+
+// twinConfigs: two sibling packages each with a struct called Config whose
+// fields carry the same names; both are expanded in one declaration.
+func twinConfigs(name string, altAliases bool) *spec.Spec {
+	b := newBuilder(name)
+	db := b.ext("dbcfg", "dbcfg", "")
+	ca := b.ext("cachecfg", "cachecfg", "")
+	dbC, caC := b.strct("Config", db), b.strct("Config", ca)
+	dbAddr, dbTO := b.nstr("Addr", db), b.nint("Timeout", db)
+	caAddr, caTO := b.nstr("Addr", ca), b.nint("Timeout", ca)
+	b.field(dbC, "Addr", dbAddr)
+	b.field(dbC, "Timeout", dbTO)
+	b.field(caC, "Addr", caAddr)
+	b.field(caC, "Timeout", caTO)
+	pdb, pca := b.ptr(dbC), b.ptr(caC)
+	app := b.strct("App", "")
+	papp := b.ptr(app)
+	p1 := b.fn("NewDBConfig", db, nil, []int{pdb}, false, false)
+	p2 := b.fn("NewCacheConfig", ca, nil, []int{pca}, false, true)
+	e1, e2 := b.expand(pdb), b.expand(pca)
+	p3 := b.fn("NewApp", "", []int{dbAddr, caTO, caAddr, dbTO}, []int{papp}, false, false)
+	b.inject("InitializeApp", papp, p1, p2, e1, e2, p3)
+	b.s.WireAltAliases = altAliases
+	b.s.WireAllInSets = altAliases
+	b.s.Features = append(b.s.Features, "twin-struct-names-across-packages")
+	return b.s
+}
+
+// sameNamedPackages: providers and types from sibling packages that share
+// one package name, each referenced several times, spread over both wire files.
+func sameNamedPackages(name string) *spec.Spec {
+	b := newBuilder(name)
+	u := b.ext("users/config", "config", "")
+	o := b.ext("orders/config", "config", "ordersconfig")
+	it := b.ext("items/config", "config", "itemsconfig")
+	var provs []int
+	var params []int
+	for i, d := range []string{u, o, it} {
+		for k := 0; k < 2; k++ {
+			t := b.ptr(b.strct(fmt.Sprintf("Settings%d", k), d))
+			provs = append(provs, b.fn(fmt.Sprintf("NewSettings%d", k), d, nil, []int{t}, false, i == 1))
+			params = append(params, t)
+		}
+	}
+	app := b.ptr(b.strct("App", ""))
+	provs = append(provs, b.fn("NewApp", "", params, []int{app}, false, false))
+	b.inject("InitializeApp", app, provs...)
+	b.s.WireAltAliases = true
+	b.s.WireAllInSets = true
+	b.s.Features = append(b.s.Features, "same-named-packages-referenced-repeatedly")
+	return b.s
+}
 
 // corpusSpecs returns the fixed regression declarations that run at every
 // seed for the given property.
 func corpusSpecs(prop string) []*spec.Spec {
+	switch prop {
+	case "C13":
+		return []*spec.Spec{twinConfigs("k13a", false), twinConfigs("k13b", true), sameNamedPackages("k13c")}
+	case "C14":
+		return []*spec.Spec{twinConfigs("k14a", false), twinConfigs("k14b", true), sameNamedPackages("k14c")}
+	case "C02", "C01", "C04", "C10", "C11":
+		return []*spec.Spec{twinConfigs("k"+prop[1:]+"a", false), sameNamedPackages("k"+prop[1:]+"c")}
+	}
 	return nil
 }
